@@ -390,8 +390,12 @@ func mnScenario(r *sim.Run, prop string) {
 	}
 
 	s.Spawn("director", func() {
-		for k := 0; k < 200 && !ready() && !r.Failed() && !mainReturned; k++ {
+		// flags written by goroutines that run natively (main() itself) are read at quiescent instants only
+		for k := 0; k < 200; k++ {
 			w.settle()
+			if ready() || r.Failed() || mainReturned {
+				break
+			}
 			time.Sleep(10 * time.Millisecond)
 		}
 		if !ready() {
@@ -445,11 +449,11 @@ func mnScenario(r *sim.Run, prop string) {
 				got, _ := stReadN(conn.H, 4, 12*time.Second)
 				w.settle()
 				conn.H.Close()
-				for k := 0; k < 20 && !conn.returned; k++ {
-					w.settle()
-					time.Sleep(time.Second)
-				}
 				w.settle()
+				for k := 0; k < 20 && !conn.returned; k++ {
+					time.Sleep(time.Second)
+					w.settle()
+				}
 				covertDialled := false
 				for _, d := range w.dials[d0:] {
 					if d.addr == g.c.covert {
@@ -583,7 +587,7 @@ func mnScenario(r *sim.Run, prop string) {
 					case w.mnRegChan <- m:
 					default:
 					}
-					time.Sleep(150 * time.Millisecond)
+					time.Sleep(151 * time.Millisecond) // never at one of the director's polling instants
 				}
 			})
 			time.Sleep(370 * time.Millisecond) // the signal lands between two arrivals
@@ -600,14 +604,15 @@ func mnScenario(r *sim.Run, prop string) {
 		stopAt := r.Elapsed()
 		r.Logf("stop signal %v (kind %d)", sig, stopKind)
 		w.mnSig <- sig
+		w.settle()
 		for k := 0; k < 1200 && !mainReturned && !r.Failed(); k++ {
-			w.settle()
 			time.Sleep(100 * time.Millisecond)
+			w.settle()
 		}
 		for k := 0; k < 100 && !floodDone; k++ {
 			time.Sleep(100 * time.Millisecond)
+			w.settle()
 		}
-		w.settle()
 		if r.Failed() {
 			return
 		}
